@@ -509,3 +509,69 @@ def symmetric_pg(rng, name=None, cls="StereoMolGraph"):
                     h = next(nid); atom(h, 1); bond(x, h)
     pg["name"] = name
     return pg
+
+
+# ---------------------------------------------------------------------------
+# 1-WL-hard graphs: disconnected unions of regular components that colour refinement cannot tell
+# apart although they are not isomorphic (rings of different size, K4 / prism / cube / K3,3 / Petersen)
+# ---------------------------------------------------------------------------
+def _regular_component(kind):
+    """returns (n_atoms, edges) of a regular graph; all atoms of one element"""
+    if kind.startswith("ring"):
+        n = int(kind[4:])
+        return n, [(i, (i + 1) % n) for i in range(n)]
+    if kind == "k4":
+        return 4, [(i, j) for i in range(4) for j in range(i + 1, 4)]
+    if kind == "prism":
+        return 6, [(0, 1), (1, 2), (2, 0), (3, 4), (4, 5), (5, 3), (0, 3), (1, 4), (2, 5)]
+    if kind == "k33":
+        return 6, [(i, j) for i in range(3) for j in range(3, 6)]
+    if kind == "cube":
+        return 8, [(i, j) for i in range(8) for j in range(i + 1, 8) if bin(i ^ j).count("1") == 1]
+    if kind == "petersen":
+        e = [(i, (i + 1) % 5) for i in range(5)] + [(5 + i, 5 + (i + 2) % 5) for i in range(5)] + [(i, i + 5) for i in range(5)]
+        return 10, e
+    raise ValueError(kind)
+
+
+WL_GROUPS = [
+    # component lists with the same number of atoms and the same degree: indistinguishable for 1-WL
+    [["ring3", "ring5"], ["ring4", "ring4"], ["ring8"]],
+    [["ring3", "ring3"], ["ring6"]],
+    [["ring3", "ring4"], ["ring7"]],
+    [["ring3", "ring3", "ring6"], ["ring4", "ring4", "ring4"], ["ring6", "ring6"], ["ring3", "ring4", "ring5"], ["ring12"]],
+    [["prism"], ["k33"]],
+    [["k4", "k4"], ["cube"]],
+    [["prism", "k4"], ["petersen"], ["k33", "k4"]],
+    [["k4", "prism", "cube"], ["k4", "k33", "cube"]],
+]
+
+
+def wl_hard_pg(rng, cls, comps=None, hydrogens=None, decorate_p=0.5, z=None):
+    """disconnected union of regular components of one element (optionally CH2-like with hydrogens)"""
+    if comps is None:
+        comps = rng.choice(rng.choice(WL_GROUPS))
+    if hydrogens is None:
+        hydrogens = rng.choice([0, 0, 2]) if all(c.startswith("ring") for c in comps) else 0
+    pg = sem.pg_empty(cls)
+    nid = 0
+    z = z or rng.choice([6, 6, 14, 7])
+    for kind in comps:
+        n, edges = _regular_component(kind)
+        base = nid
+        for i in range(n):
+            pg["atoms"][base + i] = {"atom_type": z}
+        nid += n
+        for a, b in edges:
+            pg["bonds"][frozenset((base + a, base + b))] = {}
+        for i in range(n):
+            for _ in range(hydrogens):
+                pg["atoms"][nid] = {"atom_type": 1}
+                pg["bonds"][frozenset((base + i, nid))] = {}
+                nid += 1
+    if cls in REACTION:
+        for b in rng.sample(sorted(pg["bonds"], key=sorted), rng.randint(0, 3)):
+            pg["bonds"][b]["reaction"] = rng.choice(ROLES)
+    if cls in STEREO and rng.random() < decorate_p:
+        decorate(rng, pg, p_stereo=rng.choice([0.3, 1.0]), p_change=0.3 if cls in REACTION else 0.0)
+    return pg
